@@ -4,6 +4,9 @@ use crate::{GenerateConfig, TypeStructure};
 use serde::{Deserialize, Serialize};
 use serde_rename_rule::RenameRule;
 
+/// The characters an identifier must not start with
+const ASCII_DIGITS: [char; 10] = ['0', '1', '2', '3', '4', '5', '6', '7', '8', '9'];
+
 /// Words that cannot name a function in an ES module (reserved words, `arguments`, `eval`) although
 /// they are legal Rust function names
 const JS_RESERVED_WORDS: [&str; 30] = [
@@ -167,6 +170,9 @@ pub trait NamingContext {
         // A legal Rust function name can be a reserved word of JavaScript (`delete`, `new`)
         if JS_RESERVED_WORDS.contains(&function_name.as_str()) {
             format!("{}_", function_name)
+        } else if function_name.is_empty() || function_name.starts_with(ASCII_DIGITS) {
+            // `fn _1st` and `fn __` are legal in Rust; `1st` and the empty name are no identifiers
+            format!("_{}", function_name)
         } else {
             function_name
         }
@@ -179,7 +185,14 @@ pub trait NamingContext {
     fn compute_type_name(&self, name: &str, _rename_all: &Option<RenameRule>) -> String {
         // Always use TypeScript conventions (PascalCase for types)
         // Command-level rename_all doesn't affect the type name
-        self.apply_naming_convention(name, RenameRule::PascalCase)
+        let type_name = self.apply_naming_convention(name, RenameRule::PascalCase);
+
+        // `fn _1st` and `fn __` are legal in Rust; `1st` and the empty name are no identifiers
+        if type_name.is_empty() || type_name.starts_with(ASCII_DIGITS) {
+            format!("_{}", type_name)
+        } else {
+            type_name
+        }
     }
 }
 
